@@ -589,6 +589,15 @@ async fn run_c16(sc: &Value) -> Value {
     tokio::time::sleep(Duration::from_millis(200)).await;
     let good_kind = sc["goodKind"].as_str().unwrap_or("status").to_string();
     let (outcome, latency) = if sc["cfg"]["bigStatus"].as_bool().unwrap_or(false) { ("served".to_string(), 0) } else { good_client_kind(run.port, proxied, 4000, &good_kind, sc["goodSrc"].as_str().unwrap_or("ipA")).await };
+    // ... and a second well-behaved client right behind the first (from another address: its own budget), while the others are still parked:
+    // one connection that finished must not change anything for the next one.  Reported as the worse of the two.
+    let (outcome, latency) = if sc["cfg"]["bigStatus"].as_bool().unwrap_or(false) || outcome != "served" {
+        (outcome, latency)
+    } else {
+        let second_src = if sc["goodSrc"].as_str().unwrap_or("ipA") == "ipA" { "ip6" } else { "ipA" };
+        let (o2, l2) = good_client_kind(run.port, proxied, 4000, "status", second_src).await;
+        if o2 == "served" { (outcome, latency.max(l2)) } else { (format!("second:{o2}"), l2) }
+    };
     // a second well-behaved client after a quiet period in which the server gave up on the parked ones (their deadline passed)
     let timeout_ms = sc["cfg"]["timeoutMs"].as_u64().unwrap_or(3000);
     let (quiet_outcome, quiet_latency) = match sc["quietAfterMs"].as_u64() {
